@@ -55,8 +55,8 @@ W(f) == [o |-> "write", f |-> f]
 (* number, retransmit flag and payload (its piggy-backed ackNum is judged by the link model, C01). *)
 MatchFrame(a, m) ==
     IF m.type = "DATA" THEN a.type = "DATA" /\ a.frm = m.frm /\ a.retx = m.retx /\ a.pl = m.pl
-    ELSE IF m.type = "ACKorNAK" THEN a.type \in {"ACK", "NAK"} /\ a.ack = m.ack
-    ELSE IF m.type \in {"ACK", "NAK"} THEN a.type = m.type /\ a.ack = m.ack
+    ELSE IF m.type = "ACKorNAK" THEN a.type \in {"ACK", "NAK"} /\ a.ack = m.ack /\ a.res = 0      \* the reserved bit is zero on the wire
+    ELSE IF m.type \in {"ACK", "NAK"} THEN a.type = m.type /\ a.ack = m.ack /\ a.res = 0
     ELSE a = m
 UpData(p) == [o |-> "up_data", pl |-> p]
 UpReset(c) == [o |-> "up_reset", code |-> c]
